@@ -385,16 +385,16 @@ func init() {
 		probes []string
 	}
 	defs := []def{
-		{"C01", "exploration", 20000, 600000, runSchedules, "programs x facts generated from the GRL core, each under identity/reverse/random rule-evaluation orders; distinct = event-log fingerprint; non-trivial = at least one firing and at least one condition of another rule flipped by that firing", []string{"transition.true-to-false"}},
-		{"C02", "exploration", 20000, 600000, runSchedules, "same generator; non-trivial = at least one firing and (a false->true flip of another rule's condition, or the run ended at quiescence)", []string{"transition.false-to-true"}},
-		{"C03", "exploration", 20000, 600000, runSchedules, "rule sets with saliences from {MinInt32,-7,-1,0,0,1,1,5,MaxInt32}; non-trivial = a cycle with >= 2 candidates in the model conflict set", []string{"cycle.ge2-candidates", "cycle.tie-at-top", "exec.choice-among-ge2"}},
-		{"C04", "exploration", 20000, 600000, runSchedules, "action lists of 1-5 statements over all path shapes x kinds x backends; non-trivial = at least one firing (facts compared with the model after every firing)", nil},
-		{"C06", "exploration", 20000, 600000, runSchedules, "MaxCycle in {0,1,2,3,5,12}, 0-3 listeners; non-trivial = at least one cycle observed", nil},
-		{"C10", "exploration", 20000, 600000, runSchedules, "rule sets rich in Retract(self/other/unknown) and Complete at any position; non-trivial = a Retract or Complete took effect", []string{"retract.self", "retract.other", "retract.unknown", "complete.mid-list"}},
-		{"C11", "exploration", 20000, 600000, runSchedules, "FetchMatchingRules over rule sets incl. removed rules, equal saliences, erroring conditions; non-trivial = at least one match or an evaluation error surfaced", []string{"fetch.ge2-matches"}},
-		{"C13", "exploration", 20000, 600000, runSchedules, "rule sets with call-counted pure methods whose call text is unique; non-trivial = a counted call happened in a run of >= 2 cycles", []string{"counted-call"}},
-		{"C14", "fault_enumeration", 1200, 30000, runFaults, "per scenario: every eligible seam event of the fault-free run (quick: all when <= 48, else 48 seeded) x {error, panic, nil fact}, plus natural faults, plus sampled 2-3 fault sequences; non-trivial = a fault fired inside an evaluation or a firing, or a natural error occurred", []string{"fault.in-condition", "fault.in-action"}},
-		{"C15", "fault_enumeration", 1200, 30000, runCancels, "per scenario: cancellation at every seam event of the clean run (quick: all when <= 64, else 64 seeded), pre-cancelled, 3 simulated-clock deadlines; non-trivial = the run was cut by cancellation", nil},
+		{"C01", "exploration", 20000, 200000, runSchedules, "programs x facts generated from the GRL core, each under identity/reverse/random rule-evaluation orders; distinct = event-log fingerprint; non-trivial = at least one firing and at least one condition of another rule flipped by that firing", []string{"transition.true-to-false"}},
+		{"C02", "exploration", 20000, 200000, runSchedules, "same generator; non-trivial = at least one firing and (a false->true flip of another rule's condition, or the run ended at quiescence)", []string{"transition.false-to-true"}},
+		{"C03", "exploration", 20000, 200000, runSchedules, "rule sets with saliences from {MinInt32,-7,-1,0,0,1,1,5,MaxInt32}; non-trivial = a cycle with >= 2 candidates in the model conflict set", []string{"cycle.ge2-candidates", "cycle.tie-at-top", "exec.choice-among-ge2"}},
+		{"C04", "exploration", 20000, 200000, runSchedules, "action lists of 1-5 statements over all path shapes x kinds x backends; non-trivial = at least one firing (facts compared with the model after every firing)", nil},
+		{"C06", "exploration", 20000, 200000, runSchedules, "MaxCycle in {0,1,2,3,5,12}, 0-3 listeners; non-trivial = at least one cycle observed", nil},
+		{"C10", "exploration", 20000, 200000, runSchedules, "rule sets rich in Retract(self/other/unknown) and Complete at any position; non-trivial = a Retract or Complete took effect", []string{"retract.self", "retract.other", "retract.unknown", "complete.mid-list"}},
+		{"C11", "exploration", 20000, 200000, runSchedules, "FetchMatchingRules over rule sets incl. removed rules, equal saliences, erroring conditions; non-trivial = at least one match or an evaluation error surfaced", []string{"fetch.ge2-matches"}},
+		{"C13", "exploration", 20000, 200000, runSchedules, "rule sets with call-counted pure methods whose call text is unique; non-trivial = a counted call happened in a run of >= 2 cycles", []string{"counted-call"}},
+		{"C14", "fault_enumeration", 1200, 10000, runFaults, "per scenario: every eligible seam event of the fault-free run (quick: all when <= 48, else 48 seeded) x {error, panic, nil fact}, plus natural faults, plus sampled 2-3 fault sequences; non-trivial = a fault fired inside an evaluation or a firing, or a natural error occurred", []string{"fault.in-condition", "fault.in-action"}},
+		{"C15", "fault_enumeration", 1200, 10000, runCancels, "per scenario: cancellation at every seam event of the clean run (quick: all when <= 64, else 64 seeded), pre-cancelled, 3 simulated-clock deadlines; non-trivial = the run was cut by cancellation", nil},
 	}
 	for _, d := range defs {
 		Register(&Check{ID: d.id, Level: d.level, Sim: "E", Runs: map[string]int{"quick": d.quick, "thorough": d.thorough},
